@@ -29,8 +29,11 @@ def impl(case):
     grid = case['bounds'] if g == 1 else [b / float(g) for b in case['bounds']]
     if case.get('boundskind') == 'array':
         grid = np.array(grid)               # the reader's chunk_bounds attribute is an array, not a list
+    nk = case['n_kept']
+    if case.get('nkeptkind', 'py') != 'py':
+        nk = getattr(np, case['nkeptkind'])(nk)          # the number of chunks to keep as a (narrow) NumPy integer
     sel = SpikeSelector(get_spikes_per_cluster=lambda c: spc.get(c, np.array([], dtype=np.int64)),
-                        spike_times=st, chunk_bounds=grid, n_chunks_kept=case['n_kept'])
+                        spike_times=st, chunk_bounds=grid, n_chunks_kept=nk)
     subset = None if case.get('subset') is None else np.array(case['subset'], dtype=np.int64)
     count, req = case['count'], case['req']
     if count is not None and case.get('countkind', 'py') != 'py':
@@ -39,15 +42,21 @@ def impl(case):
     for pc in case.get('pre', []):
         # earlier calls on the SAME selector (other subsets / counts / chunk restriction): a selection must not
         # depend on what the selector was asked before
-        sel(pc['count'], list(pc['req']), subset_chunks=pc['subset_chunks'],
-            subset_spikes=None if pc.get('subset') is None else np.array(pc['subset'], dtype=np.int64))
+        o = sel(pc['count'], list(pc['req']), subset_chunks=pc['subset_chunks'],
+                subset_spikes=None if pc.get('subset') is None else np.array(pc['subset'], dtype=np.int64))
+        try:
+            # what the caller does with a returned selection is the caller's business (e.g. making it relative)
+            if isinstance(o, np.ndarray) and o.size and o.flags.writeable:
+                o -= o[0] + 1
+        except Exception:  # noqa
+            pass
     out = sel(count, req, subset_chunks=case['subset_chunks'], subset_spikes=subset)
     return dict(out=[int(x) for x in out], kept=[int(round(float(x) * g)) for x in sel.chunks_kept],
                 dtype=str(np.asarray(out).dtype))
 
 
 def model_query(case, impl_res):
-    q = {k: v for k, v in case.items() if k not in ('tdtype', 'rs', 'gscale', 'countkind', 'reqkind', 'scdtype', 'pre', 'boundskind')}
+    q = {k: v for k, v in case.items() if k not in ('tdtype', 'rs', 'gscale', 'countkind', 'reqkind', 'scdtype', 'pre', 'boundskind', 'nkeptkind')}
     q['times'] = [t * case.get('gscale', 1) for t in case['times']]
     q['op'] = 'select'
     if 'ok' in impl_res and all(x >= 0 for x in impl_res['ok']['out']):
@@ -97,6 +106,7 @@ def tally(rep, case, impl_res, ans):
     if 'ok' in ans:
         rep.count('random_choice_needed:%s' % ans['ok']['random'])
     rep.count('grid_given_as:%s' % case.get('boundskind', 'list'))
+    rep.count('n_kept_type:%s%s' % (case.get('nkeptkind', 'py'), ' (100+ chunks)' if len(case['bounds']) > 100 else ''))
     rep.count('n_kept:%s, bounds:%s' % ('<=6' if case['n_kept'] <= 6 else '7+', '<=8' if len(case['bounds']) <= 8 else '9+'))
     rep.count('earlier_calls_on_same_selector:%d' % len(case.get('pre', [])))
     if any(a > b for a, b in zip(case['times'], case['times'][1:])):
@@ -194,6 +204,15 @@ def gen(tier, rng):
             c['bounds'] = sorted(rng.sample(range(0, 31 * g * 4), nb2))
             c['n_kept'] = rng.randrange(1, 25)
             c['times'] = sorted(rng.pick([rng.randrange(0, 31 * 4), rng.pick(c['bounds']) // g]) for _ in range(ns))
+        if rng.random() < .06:
+            # very long grids (hundreds of chunks, as a real recording has) with the number of kept chunks given as a
+            # narrow NumPy integer
+            nb2 = rng.pick([rng.randrange(100, 131), rng.randrange(230, 258), rng.randrange(60, 300)])
+            g = c.get('gscale', 1)
+            c['bounds'] = sorted(rng.sample(range(0, 400 * g), nb2))
+            c['n_kept'] = rng.pick([20, rng.randrange(1, 100)])
+            c['nkeptkind'] = rng.pick(['int8', 'uint8', 'int16', 'py'])
+            c['times'] = sorted(rng.pick([rng.randrange(0, 400), rng.pick(c['bounds']) // g]) for _ in range(ns))
         if rng.random() < .25 and ns > 1:
             # spike times that are not in increasing order of spike id (e.g. stored shank after shank): the property
             # quantifies over all spike-time vectors and the chunk test is per spike
